@@ -56,6 +56,8 @@ def make_case(case, ctx):
         c4 = {'cseed': rnd.randrange(1 << 30)}
         if case.get('family') in ('wide', 'edge_templates'):
             c4['family'] = case['family']
+            if case['family'] == 'edge_templates':
+                c4['edge_shapes'] = ['two_in', 'two_in', 'lin', 'tanh']
         if case.get('family') == 'hostile_names':
             c4.update(pool='derived', hostile_labels=rnd.random() < 0.6)
             if rnd.random() < 0.6:
